@@ -227,7 +227,13 @@ class PduUnitBase(Unit):
 
     def ref(self, recipe) -> bytes:
         r = norm(recipe)
-        return R.encode_pdu(self.kind, r["cfg"], r["params"])
+        return self._ref(r["cfg"], r["params"])
+
+    def _ref(self, cfg, p) -> bytes:
+        return R.encode_pdu(self.kind, cfg, p)
+
+    def _exp(self, cfg, p) -> tuple:
+        return header_exp(self.kind, cfg, p) + self._expected(cfg, p)
 
     def decoders(self):
         cls = self.cls()
@@ -246,7 +252,7 @@ class PduUnitBase(Unit):
 
     def expected(self, recipe) -> tuple:
         r = norm(recipe)
-        return header_exp(self.kind, r["cfg"], r["params"]) + self._expected(r["cfg"], r["params"])
+        return self._exp(r["cfg"], r["params"])
 
     def declared_len(self, obj) -> int:
         return obj.packet_len
@@ -267,7 +273,7 @@ class PduUnitBase(Unit):
         for k in CFG_ORDER + [x for x in r["cfg"] if x not in CFG_ORDER]:
             v = r["cfg"].get(k, CFG_DEFAULT.get(k))
             if v is not None and v != CFG_DEFAULT.get(k, 0 if k in ("ptype", "dir", "segmeta") else None):
-                out.append(("cfg." + k, f"{k}={v}"))
+                out.append(("cfg." + k, f"{k}!=default" if k in ("src", "seq", "dst") else f"{k}={v}"))
         dflt = PARAM_DEFAULT[self.kind]
         for k in dflt:
             v = r["params"].get(k, dflt[k])
@@ -292,7 +298,7 @@ class PduUnitBase(Unit):
                 return f"{k}={v}"
             if k == "acked":
                 return f"acked={v}"
-            return f"{k}>=2^32" if v >= (1 << 32) else f"{k}!={d}"
+            return f"{k}!={d}"
         return f"{k}=1"
 
     def reset(self, recipe, key):
@@ -304,12 +310,19 @@ class PduUnitBase(Unit):
                 r["cfg"][k] = CFG_DEFAULT[k]
             else:
                 r["cfg"].pop(k, None)
-            if k == "large":  # values that only fit 64 bit would leave the domain
-                for pk, pv in r["params"].items():
-                    if isinstance(pv, int) and pv >= (1 << 32):
-                        return None
-                    if pk == "segs" and pv and any(x >= (1 << 32) for s in pv for x in s):
-                        return None
+            if k in ("idw", "seqw"):  # explicit ID values are folded into the new width
+                for f, w in (("src", r["cfg"]["idw"]), ("dst", r["cfg"]["idw"]), ("seq", r["cfg"]["seqw"])):
+                    if r["cfg"].get(f) is not None:
+                        r["cfg"][f] &= (1 << (8 * w)) - 1
+            if k == "large":  # values that only fit 64 bit are folded into 32 bit (kept non-zero)
+                def fold(x):
+                    return x if x < (1 << 32) else ((x & 0xFFFFFFFF) or 1)
+
+                for pk, pv in list(r["params"].items()):
+                    if isinstance(pv, int) and not isinstance(pv, bool):
+                        r["params"][pk] = fold(pv)
+                    elif pk == "segs" and pv:
+                        r["params"][pk] = [[fold(a), fold(b)] for a, b in pv]
             return r
         if key == "cc" and r["params"].get("fault") is not None:
             return None  # a fault location needs an error condition code
@@ -539,9 +552,8 @@ class PduHeaderUnit(PduUnitBase):
         return L.PduHeader(L.PduType(cfg.get("ptype", 0)), L.SegmentMetadataFlag(cfg.get("segmeta", 0)), p["dlen"],
                            pdu_config(cfg, cfg.get("dir", 0)))
 
-    def ref(self, recipe) -> bytes:
-        r = norm(recipe)
-        return R.encode_header(r["cfg"], r["params"])
+    def _ref(self, cfg, p) -> bytes:
+        return R.encode_header(cfg, p)
 
     def decoders(self):
         def unpack(b, recipe=None):
@@ -552,9 +564,8 @@ class PduHeaderUnit(PduUnitBase):
     def observe(self, obj) -> tuple:
         return header_obs(obj) + (int(obj.pdu_data_field_len),)
 
-    def expected(self, recipe) -> tuple:
-        r = norm(recipe)
-        return header_exp("PduHeader", r["cfg"], r["params"]) + (r["params"]["dlen"],)
+    def _exp(self, cfg, p) -> tuple:
+        return header_exp("PduHeader", cfg, p) + (p["dlen"],)
 
     def declared_len(self, obj) -> int:
         """the self-delimiting unit is the fixed header itself: 4 + 2*idw + seqw octets"""
@@ -590,11 +601,12 @@ def evaluate(unit, recipe, via="class", encode_side=True):
     """
     kind = unit.kind
     r = norm(recipe)
-    ref = unit.ref(r)
-    hlen = R.header_len_of(r["cfg"]["idw"], r["cfg"]["seqw"])
+    cfg, p = r["cfg"], r["params"]
+    ref = unit._ref(cfg, p)
+    hlen = R.header_len_of(cfg["idw"], cfg["seqw"])
     obj = None
     try:
-        obj = unit.build(r)
+        obj = unit._build(cfg, p)
     except Exception as e:
         if encode_side:
             return Failure("encode", kind + ".__init__", "exception", repr(e), ref)
@@ -618,7 +630,7 @@ def evaluate(unit, recipe, via="class", encode_side=True):
         return Failure("decode", subject, "refused", repr(e), None)
     if type(u) is not unit.cls():
         return Failure("decode", subject, "wrong-class", type(u).__name__, kind)
-    exp = unit.expected(r)
+    exp = unit._exp(cfg, p)
     try:
         obs = unit.observe(u)
     except Exception as e:
@@ -649,9 +661,10 @@ def evaluate(unit, recipe, via="class", encode_side=True):
     return None
 
 
-def minimise(unit, recipe, fail, via, encode_side=True):
+def minimise(unit, recipe, fail, via, encode_side=True, evaluator=None):
     """delta-debugging over the choice vector: put every non-default axis back to its default as long as the
     same entry point keeps failing; returns (minimal recipe, its failure, labels of the axes that stayed)"""
+    evaluator = evaluator or evaluate
     cur = norm(recipe)
     site = (fail.clause, fail.subject)
     changed = True
@@ -663,31 +676,110 @@ def minimise(unit, recipe, fail, via, encode_side=True):
             red = unit.reset(cur, key)
             if red is None:
                 continue
-            f2 = evaluate(unit, red, via, encode_side)
+            f2 = evaluator(unit, red, via, encode_side)
             if f2 is not None and (f2.clause, f2.subject) == site:
                 cur, fail, changed = red, f2, True
     return cur, fail, [lab for _, lab in unit.features(cur)]
 
 
+def ctor_source(kind, cfg, p) -> str:
+    """Python source that constructs the PDU of a recipe with nothing but `import spacepackets` (for repro_py)"""
+    src, seq, dst = R.cfg_ids(cfg)
+    direction = f", direction=Direction({cfg.get('dir', 0)})" if kind == "PduHeader" else ""
+    lines = [
+        "from spacepackets.cfdp import *; from spacepackets.cfdp.defs import *; from spacepackets.cfdp.conf import PduConfig",
+        "from spacepackets.cfdp.pdu import *; from spacepackets.cfdp.pdu.file_data import *; from spacepackets.cfdp.pdu.prompt import ResponseRequired",
+        "from spacepackets.cfdp.tlv import *; from spacepackets.util import ByteFieldGenerator as G",
+        f"conf = PduConfig(source_entity_id=G.from_int({cfg['idw']}, {src:#x}), dest_entity_id=G.from_int({cfg['idw']}, {dst:#x}), "
+        f"transaction_seq_num=G.from_int({cfg['seqw']}, {seq:#x}), trans_mode=TransmissionMode({cfg['mode']}), "
+        f"file_flag=LargeFileFlag({cfg['large']}), crc_flag=CrcFlag({cfg['crc']}), seg_ctrl=SegmentationControl({cfg.get('segctrl', 0)}){direction})",
+    ]
+
+    def fl(x):
+        return "None" if x is None else f"EntityIdTlv({bytes(x)!r})"
+
+    def resp(r):
+        return (f"FileStoreResponseTlv(FilestoreActionCode({r['action']}), FilestoreResponseStatusCode({r['action'] << 4 | r['status']}), "
+                f"{r['first']!r}, {(r.get('second') or '')!r}, CfdpLv({bytes(r.get('msg') or b'')!r}))")
+
+    def opt(o):
+        t = o["t"]
+        if t == "flow":
+            return f"FlowLabelTlv({bytes(o['v'])!r})"
+        if t == "msg":
+            return f"MessageToUserTlv({bytes(o['v'])!r})"
+        if t == "fsreq":
+            return f"FileStoreRequestTlv(FilestoreActionCode({o['action']}), {o['first']!r}, {(o.get('second') or '')!r})"
+        if t == "fault":
+            return f"FaultHandlerOverrideTlv(ConditionCode({o['cc']}), FaultHandlerCode({o['handler']}))"
+        return f"CfdpTlv(TlvType({o['type']}), {bytes(o['v'])!r})"
+
+    if kind == "PduHeader":
+        e = f"PduHeader(PduType({cfg.get('ptype', 0)}), SegmentMetadataFlag({cfg.get('segmeta', 0)}), {p['dlen']}, conf)"
+    elif kind == "EofPdu":
+        e = f"EofPdu(conf, {bytes(p['checksum'])!r}, {p['size']:#x}, {fl(p.get('fault'))}, ConditionCode({p['cc']}))"
+    elif kind == "FinishedPdu":
+        e = (f"FinishedPdu(conf, FinishedParams(ConditionCode({p['cc']}), DeliveryCode({p['dc']}), FileStatus({p['fs']}), "
+             f"[{', '.join(resp(r) for r in p.get('resps') or [])}], {fl(p.get('fault'))}))")
+    elif kind == "AckPdu":
+        e = f"AckPdu(conf, DirectiveType({p['acked']}), ConditionCode({p['cc']}), TransactionStatus({p['ts']}))"
+    elif kind == "MetadataPdu":
+        opts = p.get("opts")
+        e = (f"MetadataPdu(conf, MetadataParams({bool(p['closure'])}, ChecksumType({p['cs']}), {p['size']:#x}, {p.get('src')!r}, {p.get('dst')!r}), "
+             f"{'None' if opts is None else '[' + ', '.join(opt(o) for o in opts) + ']'})")
+    elif kind == "NakPdu":
+        segs = p.get("segs")
+        e = f"NakPdu(conf, {p['start']:#x}, {p['end']:#x}, {None if segs is None else [tuple(x) for x in segs]!r})"
+    elif kind == "PromptPdu":
+        e = f"PromptPdu(conf, ResponseRequired({p['rr']}))"
+    elif kind == "KeepAlivePdu":
+        e = f"KeepAlivePdu(conf, {p['progress']:#x})"
+    else:
+        md = p.get("md")
+        data = R.data_octets(p["data"])
+        ds = repr(data) if len(data) <= 512 else f"bytes.fromhex('{data[:16].hex()}' + ...)  # {len(data)} octets, see the recipe"
+        e = (f"FileDataPdu(conf, FileDataParams({ds}, {p['offset']:#x}, "
+             f"{'None' if md is None else f'SegmentMetadata(RecordContinuationState({md[0]}), {bytes(md[1])!r})'}))")
+    lines.append("pdu = " + e)
+    return "\n".join(lines)
+
+
+def repro_source(unit, recipe, via, fail) -> str:
+    r = norm(recipe)
+    kind = unit.kind
+    ref = unit._ref(r["cfg"], r["params"])
+    out = [ctor_source(kind, r["cfg"], r["params"])]
+    refline = (f"ref = bytes.fromhex('{ref.hex()}')  # reference octets per CCSDS 727.0-B-5" if len(ref) <= 2048
+               else f"ref = ...  # {len(ref)} reference octets: ref.cfdp.encode_pdu({kind!r}, cfg, params)")
+    out.append(refline)
+    if fail.clause in ("encode", "length"):
+        out.append("assert bytes(pdu.pack()) == ref and pdu.packet_len == len(ref)")
+    else:
+        call = f"{kind}.unpack(ref)" if via == "class" else "PduFactory.from_raw(ref)"
+        out.append(f"u = {call}  # expected: decodes to the parameters above; {fail.kind}")
+        out.append("assert type(u) is type(pdu) and u == pdu and pdu == u and bytes(u.pack()) == ref and u.packet_len == len(ref)")
+    return "\n".join(out)
+
+
 _SIG_CACHE = {}
 
 
-def judge(rec, pid, clause_prefix, unit, recipe, via="class", encode_side=True, outcome=True):
+def judge(rec, pid, clause_prefix, unit, recipe, via="class", encode_side=True, evaluator=None):
     """evaluate one recipe, count it, and report a disagreement under a coarse signature
     '<pid>.<clause>/<subject>/<kind>[/<feature>...]' whose witness is the minimised recipe"""
-    fail = evaluate(unit, recipe, via, encode_side)
+    fail = (evaluator or evaluate)(unit, recipe, via, encode_side)
     if fail is None:
         return True
     labels = tuple(lab for _, lab in unit.features(recipe))
     key = (pid, via, fail.clause, fail.subject, labels)
     hit = _SIG_CACHE.get(key)
     if hit is None:
-        mrec, mfail, mlabels = minimise(unit, recipe, fail, via, encode_side)
+        mrec, mfail, mlabels = minimise(unit, recipe, fail, via, encode_side, evaluator)
         clause = clause_prefix or mfail.clause
         sig = f"{pid}.{clause}/{mfail.subject}/{mfail.kind}" + "".join("/" + x for x in mlabels)
-        hit = _SIG_CACHE[key] = (sig, hexed(mrec), mfail)
-    sig, mrec, mfail = hit
+        hit = _SIG_CACHE[key] = (sig, hexed(mrec), mfail, repro_source(unit, mrec, via, mfail))
+    sig, mrec, mfail = hit[:3]
     rec.violation(sig, {"kind": "pdu", "unit": unit.kind, "via": via, "enc": bool(encode_side), "recipe": mrec},
                   mfail.observed, mfail.expected,
-                  repro=f"units.cfdp_pdu: evaluate(UNITS[{unit.kind!r}], recipe, via={via!r})  # reference octets: ref.cfdp.encode_pdu")
+                  repro=hit[3])
     return False
